@@ -43,6 +43,10 @@ def vector_ro(rng, n, ed_start, explicit_start=(), explicit_end=()):
 
 def run(s):
     q = s.tier == 'quick'
+
+    def on_pair_state(ro, cur, ev):
+        acc.sweep(s, ro, cur, {'workload': 'pair-history'}, after=(ev or {}).get('msg_cls'))
+    K.pair_histories(s, timing='timed', text='plain', on_state=on_pair_state)
     idx = 0
     starts = ('2020-01-01T12:30:00', None, '')
     for n in range(0, 11):
@@ -72,7 +76,7 @@ def run(s):
 
         def on_state(ro, cur, ev, h=h):
             acc.sweep(s, ro, cur, {'history': h}, after=(ev or {}).get('msg_cls'))
-        K.fuzz_history(s, h, w, steps=(3, 15), text='plain', timing='timed' if h % 4 else 'any', on_state=on_state,
+        K.fuzz_history(s, h, w, steps=(3, 15), text='plain', timing='timed' if h % 4 else 'any', on_state=on_state, direct=0.25,
                        shape_weights=(0.95, 0.03, 0.02, 0.0), selfref=0.0, ro_kw={'share_items': False})
     s.hist['fuzz_histories_total'] = nh
 
